@@ -3,7 +3,9 @@ from .pdb import strip, walk, loc, ancestors
 from .terms import Ctx, num, show, lin_add, lin_sub
 from .common import (P, F, SIZE, effects, callee_path, call_args, rule_index_kinds, find_argmax, ordered_cmps_on_elements,
                      reachable_fns, elem_ref, loop_var_ranges, is_abs_term, in_macro, same_dim, _resolve)
-from .guards import for_range, facts
+from .guards import facts
+from .guards import for_range as raw_for_range
+from .common import for_range_total as for_range
 
 LEVEL = "other"
 M = "matrix::Matrix<T>"
@@ -182,9 +184,27 @@ def run(rep, pdb, tier):
     if lu is not None:
         ctx = Ctx.for_fn(pdb, lu)
         outer = [n for n in walk(lu["body"]) if n.get("k") == "For"][0]
-        ro = for_range(ctx, outer)
+        ro = raw_for_range(ctx, outer)     # the column loop may `continue` (checked by skip-only-zero below)
         i = ro[0]
         am = check_argmax(rep, pdb, lu, "lu_decomp_in_place", i, ROWS, 1, lambda c: i)
+        # a column may be skipped only when its pivot magnitude is EXACTLY zero
+        skips = [n for n in walk(lu["body"]) if n.get("k") in ("Continue", "Break") and not n.get("x")]
+        rets = [n for n in walk(lu["body"]) if n.get("k") == "Ret"]
+        okk = am is not None and not rets
+        dets = []
+        for sk in skips:
+            ifs = [a for a in ancestors(sk) if a.get("k") == "If"]
+            good = False
+            if ifs and sk.get("k") == "Continue" and am is not None:
+                from .guards import cond_atoms
+                from .common import is_zero_term
+                at = cond_atoms(ctx, ifs[0]["cond"], True)
+                good = len(ifs) == 1 and len(at) == 1 and at[0][0] == "cmp" and at[0][1] == "==" and \
+                    ((at[0][2] == am.best and is_zero_term(at[0][3])) or (at[0][3] == am.best and is_zero_term(at[0][2])))
+            okk = okk and good
+            dets.append("%s at %s guarded by `pivot magnitude == zero`: %s" % (sk.get("k"), loc(sk), good))
+        rep.add("skip-only-zero/lu_decomp_in_place", "elimination of a column is skipped only when the pivot magnitude found by the search is exactly zero (no tolerance, no other early exit)",
+                okk, skips[0] if skips else lu["body"], "; ".join(dets) or "no skip", where=loc(skips[0]) if skips else loc(lu["body"]))
         # exchange pair: permutation and self swapped with the same pair inside `if imax != i`
         sws = [n for n in walk(lu["body"]) if n.get("k") == "MethodCall" and callee_path(n) == "%s::swap_rows" % M]
         ok = len(sws) == 2 and am is not None
@@ -268,6 +288,7 @@ def run(rep, pdb, tier):
     rep.floor("exchange-pair/", 2)
     rep.floor("row-op-pair/", 2)
     rep.floor("sweep-order/", 2)
+    rep.floor("skip-only-zero/", 1)
     rep.floor("permute-rhs/", 1)
     rep.floor("length/", 2)
     rep.assumptions += ["decides the pivoting / elimination / substitution structure; backward error of order eps, exactness over rationals and agreement of the two solvers are numerical consequences not decided statically"]
